@@ -418,6 +418,10 @@ func runC43(c *fw.Ctx) {
 	// the model-vs-git replay runs last so that a slow machine cuts the
 	// replay, not the enumeration (both are complete on an idle machine)
 	t0 := c.Elapsed()
+	if c.Expired() {
+		c.Incomplete("deadline reached before the model-vs-git conformance replay")
+		return
+	}
 	c43Conformance(c, repo, insts, litN)
 	c.Extra("conformance_seconds", int((c.Elapsed() - t0).Seconds()))
 }
